@@ -59,6 +59,10 @@ template <class Aut> static void pairEnc(const ref::TA& A, const ref::TA& B, con
       AutBase::StateDict sd; AutBase::StateType cnt = 0; ref::TA B2 = ref::shift(B, n); Aut a2 = bddg::loadD<Aut>(A, D.sig, sd, cnt), b2 = bddg::loadD<Aut>(B2, D.sig, sd, cnt);
       Aut r = Aut::UnionDisjointStates(a2, b2); ref::TA R = bddg::modelOf(r, D.sig); if (!ref::equalLang(R, U)) bad("UnionDisjointStates", "language_not_the_union", "result: " + R.str(D.sig.names.data()));
       if (!ref::equalLang(bddg::modelOf(a2, D.sig), A) || !ref::equalLang(bddg::modelOf(b2, D.sig), B)) bad("UnionDisjointStates", "operand_language_changed", "lhs now: " + bddg::modelOf(a2, D.sig).str(D.sig.names.data()) + " rhs now: " + bddg::modelOf(b2, D.sig).str(D.sig.names.data())); }
+    if (A == B) { c.count("aliased_operand_cases");   // the same object as both operands
+      { Aut r = Aut::Union(a, a); ref::TA R = bddg::modelOf(r, D.sig); if (!ref::equalLang(R, A)) bad("Union(aliased)", "language_not_the_union", "Union(a, a); result: " + R.str(D.sig.names.data())); }
+      { Aut r = Aut::Intersection(a, a); ref::TA R = bddg::modelOf(r, D.sig); if (!ref::equalLang(R, A)) bad("Intersection(aliased)", "language_not_the_intersection", "Intersection(a, a); result: " + R.str(D.sig.names.data())); }
+      if (!ref::equalLang(bddg::modelOf(a, D.sig), A)) bad("aliased", "operand_language_changed", ""); }
   } catch (std::exception& e) { bad("pair operations", "exception", e.what()); }
 }
 
